@@ -142,6 +142,13 @@ impl AlcCodec for AlcRS2m {
             })
             .unwrap_or(8);
 
+        if m >= 32 {
+            return Err(FluteError::new(format!(
+                "Reed Solomon GF(2^m) with m={} is not supported",
+                m
+            )));
+        }
+
         let sbn = payload_id_header >> m;
         let esi_mask = (1u32 << m) - 1u32;
         let esi = payload_id_header & esi_mask;
